@@ -651,8 +651,15 @@ func c10r7(c *Ctx, id string) {
 				if len(add.Params) > 1 {
 					p = "param(" + add.Params[1].Name() + ")"
 				}
-				if rootFn(fn) != add || fn != add || k != p+".Name" || v != p || len(guardsOf(in.Block())) != 0 {
-					bad = append(bad, fmt.Sprintf("Store(%s, %s) in %s under %d conditions @%s", k, v, fname(fn), len(guardsOf(in.Block())), w.pos(in.Pos())))
+				// the decision to store may depend on the argument being there at all, never on what the table holds
+				nCond := 0
+				for _, g := range guardsOf(in.Block()) {
+					if _, isNilTest := isNilCompare(g.Cond, func(x ssa.Value) bool { return len(add.Params) > 1 && x == ssa.Value(add.Params[1]) }); !isNilTest {
+						nCond++
+					}
+				}
+				if rootFn(fn) != add || fn != add || k != p+".Name" || v != p || nCond != 0 {
+					bad = append(bad, fmt.Sprintf("Store(%s, %s) in %s under %d conditions @%s", k, v, fname(fn), nCond, w.pos(in.Pos())))
 				}
 			case "Delete":
 				nDelete++
@@ -660,6 +667,9 @@ func c10r7(c *Ctx, id string) {
 					bad = append(bad, "Delete in "+fname(fn)+" @"+w.pos(in.Pos()))
 				}
 			case "Load", "Range", "Count":
+				if rootFn(fn) == add {
+					bad = append(bad, m+" in Add (a registration must not depend on the entry it replaces) @"+w.pos(in.Pos()))
+				}
 			default:
 				bad = append(bad, m+" in "+fname(fn)+" @"+w.pos(in.Pos()))
 			}
